@@ -524,6 +524,10 @@ pub fn run_c05(ctx: &Ctx) -> ! {
     inputs.extend(corpus());
     inputs.extend(grid_messages());
     inputs.extend(tricky_text_wire(&MULTIBYTE_LENS));
+    // every multiple of 1000 and of 1024 (and its neighbours) as the length of a name, a text value, a member name
+    for pos in 0..3 {
+        inputs.extend(ladder_wire(pos));
+    }
     let nbytes = tier.pick(1u32, 2u32);
     for l in 0..=nbytes {
         for v in 0..(256u64.pow(l)) {
@@ -833,6 +837,9 @@ pub fn run_c06(ctx: &Ctx) -> ! {
             ],
         });
         msgs.push((format!("long-{}-{}", what, len), r1::encode(&m)));
+    }
+    for pos in 0..2 {
+        msgs.extend(ladder_wire(pos));
     }
     for (name, bytes) in msgs {
         let m = match r1::decode(&bytes) {
